@@ -50,6 +50,30 @@ theorem strip_keeps (stripped : List String) (annos : List (String × String)) (
     (hk : k ∉ stripped) (h : (k, v) ∈ annos) : (k, v) ∈ strip stripped annos := by
   simp [strip, List.mem_filter, hk, h]
 
+/-- **stripping is a fixpoint**: a second pass removes nothing (the (d) clause at the annotation level) -/
+theorem strip_idem (stripped : List String) (annos : List (String × String)) :
+    strip stripped (strip stripped annos) = strip stripped annos := by
+  simp [strip, List.filter_filter]
+
+/-- stripping only removes: what is left is a sub-list of the input, in the input's order -/
+theorem strip_sublist (stripped : List String) (annos : List (String × String)) :
+    (strip stripped annos).Sublist annos := by
+  simp [strip]
+
+/-- **free of bookkeeping**: after the strip no key of the stripped list is left, whatever the annotations were -/
+theorem strip_clean (stripped : List String) (annos : List (String × String)) :
+    ∀ kv ∈ strip stripped annos, kv.1 ∉ stripped := by
+  intro kv h
+  simp only [strip, List.mem_filter, Bool.not_eq_true', List.contains_eq_mem, decide_eq_false_iff_not] at h
+  exact h.2
+
+/-- annotations that carry no bookkeeping key pass through unchanged -/
+theorem strip_id_of_clean (stripped : List String) (annos : List (String × String))
+    (h : ∀ kv ∈ annos, kv.1 ∉ stripped) : strip stripped annos = annos := by
+  simp only [strip, List.filter_eq_self]
+  intro kv hkv
+  simp [h kv hkv]
+
 /-- keys removed at the end of `Kustomizer.Run` when no build metadata is requested -/
 def strippedKeys : List String :=
   Gen.buildAnnotations ++ ["config.kubernetes.io/origin", "alpha.config.kubernetes.io/transformations"]
